@@ -197,6 +197,9 @@ func (x *Exec) staticCall(fr *Frame, st *State, site ssa.Instruction, fn *ssa.Fu
 			return r
 		}
 	}
+	if r, ok := x.protoGetter(st, fn, args); ok {
+		return r
+	}
 	if ct := x.eng.contracts.Funcs[key]; ct != nil && ct.Opts["inline"] == "" {
 		return pack(x.applyContract(fr, st, fn, ct, args, pos), rt)
 	}
@@ -995,3 +998,47 @@ func (x *Exec) appendBuiltin(fr *Frame, st *State, args []Value, c *ssa.CallComm
 }
 
 var _ = sort.Strings
+
+// protoGetter models the generated getters of protobuf messages, "func (x *T) GetF() FT", for
+// scalar fields: nil-safe, returns x.F (the zero value for a nil receiver). The generated code is
+// exactly `if x != nil { return x.F }; return <zero>`.
+func (x *Exec) protoGetter(st *State, fn *ssa.Function, args []Value) (Value, bool) {
+	if fn.Pkg == nil || x.eng.isHome(fn.Pkg.Pkg) || len(args) != 1 || !strings.HasPrefix(fn.Name(), "Get") {
+		return nil, false
+	}
+	path := fn.Pkg.Pkg.Path()
+	if !strings.Contains(path, "genproto") && !strings.Contains(path, "protobuf/types") {
+		return nil, false
+	}
+	recv := fn.Signature.Recv()
+	if recv == nil || fn.Signature.Results().Len() != 1 {
+		return nil, false
+	}
+	pt, ok := recv.Type().(*types.Pointer)
+	if !ok {
+		return nil, false
+	}
+	stt, skey := structOf(pt.Elem())
+	if stt == nil {
+		return nil, false
+	}
+	rtyp := fn.Signature.Results().At(0).Type()
+	switch kindOf(rtyp) {
+	case KInt, KString, KBool:
+	default:
+		return nil, false
+	}
+	for i := 0; i < stt.NumFields(); i++ {
+		if stt.Field(i).Name() == fn.Name()[3:] && types.Identical(stt.Field(i).Type(), rtyp) {
+			obj := tOf(args[0])
+			v, ok := x.loadField(st, obj, stt, skey, i).(VTerm)
+			z, ok2 := x.zero(rtyp).(VTerm)
+			if !ok || !ok2 {
+				return nil, false
+			}
+			x.usedModels["generated protobuf getter "+fn.String()] = true
+			return VTerm{x.vc.Name(Ite(Eq(obj, IntLit(0)), z.T, v.T), "pbget")}, true
+		}
+	}
+	return nil, false
+}
